@@ -244,6 +244,54 @@ Proof.
   destruct o4, o3; try exact W. now apply forallb_wf_upd.
 Qed.
 
+Lemma map_scan_safe ko : forall l n0, items_ok IMap l = true ->
+  match map_scan ko l n0 with Ok _ => True | Fault g => g = Abort end.
+Proof.
+  induction l as [|s t IH]; intros n0 Hl; [exact I|]. cbn [map_scan]. fold (map_scan ko).
+  rewrite items_ok_cons in Hl. apply andb_prop in Hl as (Hs1 & Ht). apply andb_prop in Hs1 as (Hi & _).
+  destruct (item_ok_map_some s Hi) as (pk & pv & ->). cbn [comp_elem].
+  destruct (comp (OPair (Some pk) (Some pv)) ko) as [cr|g] eqn:Ec; cbn [bind]; [|now apply comp_fault in Ec].
+  destruct (is_eq cr); [exact I|]. now apply IH.
+Qed.
+
+Lemma map_set_safe w m ko vo : Good w -> wf ko = true -> wf vo = true -> Safe (map_set pcre w m ko vo).
+Proof.
+  intros G Wk Wv. pose proof G as (W & B). unfold map_set.
+    destruct (get w m) as [mo|g] eqn:Gm; cbn [bind]; [|apply get_fault in Gm; subst; cbn; pf].
+    destruct (as_cont mo) as [[[[[i c] a] al] xs]|g] eqn:Ac; cbn [bind]; [|apply as_cont_fault in Ac; subst; cbn; pf].
+    destruct (want_iface i IMap) as [u|g] eqn:Wi; cbn [bind]; [|apply want_iface_fault in Wi; subst; cbn; pf].
+    match goal with |- Safe (if ?c then _ else _) => destruct c end; [cbn; pf|].
+    apply want_iface_ok in Wi. subst i. apply as_cont_ok in Ac. subst mo. apply get_ok in Gm.
+    pose proof (WF_lookup _ _ _ W Gm) as Wm. rewrite wf_cont_items in Wm.
+    pose proof (map_scan_safe ko xs O Wm) as Scan.
+    destruct (map_scan ko xs O) as [hit|g] eqn:Hit; cbn [bind]; [|subst; cbn; pf].
+    destruct (copy_wf pcre vo Wv) as (Pv & Qv).
+    destruct (copy pcre vo) as [v'|g]; cbn [bind]; [|rewrite (Qv g eq_refl); cbn; pf].
+    specialize (Pv v' eq_refl).
+    destruct hit as [n|].
+    + apply scan_hit_lt in Hit.
+      pose proof (items_ok_nth IMap xs n Wm ltac:(lia)) as Nn.
+      destruct (nth n xs None) as [e|] eqn:En; [|cbn; pf].
+      apply andb_prop in Nn as (Ni & Nw).
+      destruct (item_ok_map_some _ Ni) as (pk & pv & Epair). inv Epair.
+      pose proof (relabel_wf v' (naddr w)) as Rv. destruct (relabel v' (naddr w)) as [v2 na]. cbn [fst] in Rv.
+      cbn [Safe]. split; cbn [held next]; [|now apply below_put].
+      apply WF_put; [exact W|]. rewrite wf_cont_items. apply items_ok_upd; [exact Wm|].
+      cbn [wf_opt] in Nw. rewrite wf_pair in Nw. apply andb_prop in Nw as (Nk & _).
+      change (item_ok IMap (Some (OPair (Some pk) (Some v2)))) with true. cbn [andb wf_opt].
+      rewrite wf_pair, Nk. cbn [wf_opt andb]. now rewrite Rv.
+    + destruct (copy_wf pcre ko Wk) as (Pk & Qk).
+      destruct (copy pcre ko) as [k'|g]; cbn [bind]; [|rewrite (Qk g eq_refl); cbn; pf].
+      specialize (Pk k' eq_refl).
+      pose proof (relabel_wf (OPair (Some k') (Some v')) (naddr w)) as Rp.
+      pose proof (relabel_opt_item IMap (Some (OPair (Some k') (Some v'))) (naddr w)) as Ri. cbn [relabel_opt] in Ri.
+      destruct (relabel (OPair (Some k') (Some v')) (naddr w)) as [pr na]. cbn [fst] in Rp, Ri.
+      destruct (c_insert c pr xs) as [xs'|g] eqn:Ci; cbn [bind]; [|apply c_insert_fault in Ci; subst; cbn; pf].
+      cbn [Safe]. split; cbn [held next]; [|now apply below_put].
+      apply WF_put; [exact W|]. rewrite wf_cont_items. eapply c_insert_ok; [exact Ci|exact Wm|].
+      rewrite Ri, Rp, wf_pair. cbn [item_ok wf_opt]. now rewrite Pk, Pv.
+Qed.
+
 Theorem step_safe w op : Good w -> Safe (step pcre flag_table w op).
 Proof.
   intros G. pose proof G as (W & B). destruct op; cbn [step].
@@ -407,51 +455,36 @@ Proof.
     destruct (get w m) as [mo|g] eqn:Gm; cbn [bind]; [|apply get_fault in Gm; subst; cbn; pf].
     destruct (get w k) as [ko|g] eqn:Gk; cbn [bind]; [|apply get_fault in Gk; subst; cbn; pf].
     destruct (get w v) as [vo|g] eqn:Gv; cbn [bind]; [|apply get_fault in Gv; subst; cbn; pf].
+    match goal with |- Safe (if ?c then _ else _) => destruct c end; [cbn; pf|].
+    apply get_ok in Gk, Gv.
+    apply map_set_safe; [exact G|exact (WF_lookup _ _ _ W Gk)|exact (WF_lookup _ _ _ W Gv)].
+  - (* MSetPair *)
+    destruct (get w m) as [mo|g] eqn:Gm; cbn [bind]; [|apply get_fault in Gm; subst; cbn; pf].
+    destruct (get w p) as [po|g] eqn:Gp; cbn [bind]; [|apply get_fault in Gp; subst; cbn; pf].
+    match goal with |- Safe (if ?c then _ else _) => destruct c end; [cbn; pf|].
+    apply get_ok in Gp. pose proof (WF_lookup _ _ _ W Gp) as Wp.
+    destruct po as [| | | |[pk|] [pv|]| | | | | |]; try (cbn; pf).
+    rewrite wf_pair in Wp. apply andb_prop in Wp as (Wk & Wv). cbn [wf_opt] in Wk, Wv.
+    apply map_set_safe; assumption.
+  - (* MSetOwn *)
+    destruct (get w m) as [mo|g] eqn:Gm; cbn [bind]; [|apply get_fault in Gm; subst; cbn; pf].
+    destruct (get w k) as [ko|g] eqn:Gk; cbn [bind]; [|apply get_fault in Gk; subst; cbn; pf].
     destruct (as_cont mo) as [[[[[i c] a] al] xs]|g] eqn:Ac; cbn [bind]; [|apply as_cont_fault in Ac; subst; cbn; pf].
     destruct (want_iface i IMap) as [u|g] eqn:Wi; cbn [bind]; [|apply want_iface_fault in Wi; subst; cbn; pf].
     match goal with |- Safe (if ?c then _ else _) => destruct c end; [cbn; pf|].
-    apply want_iface_ok in Wi. subst i. apply as_cont_ok in Ac. subst mo. apply get_ok in Gm, Gk, Gv.
+    apply want_iface_ok in Wi. subst i. apply as_cont_ok in Ac. subst mo. apply get_ok in Gm, Gk.
     pose proof (WF_lookup _ _ _ W Gm) as Wm. rewrite wf_cont_items in Wm.
-    pose proof (WF_lookup _ _ _ W Gk) as Wk. pose proof (WF_lookup _ _ _ W Gv) as Wv.
-    assert (Scan : forall l n0, items_ok IMap l = true ->
-              match (fix go (l : list (option obj)) (n : nat) : res (option nat) :=
-                       match l with
-                       | [] => Ok None
-                       | s :: t => cres <- comp_elem s ko ;; if is_eq cres then Ok (Some n) else go t (S n)
-                       end) l n0 with
-              | Ok _ => True | Fault g => g = Abort end).
-    { induction l as [|s t IH]; intros n0 Hl; [exact I|].
-      rewrite items_ok_cons in Hl. apply andb_prop in Hl as (Hs1 & Ht). apply andb_prop in Hs1 as (Hi & _).
-      destruct (item_ok_map_some s Hi) as (pk & pv & ->). cbn [comp_elem].
-      destruct (comp (OPair (Some pk) (Some pv)) ko) as [cr|g] eqn:Ec; cbn [bind]; [|now apply comp_fault in Ec].
-      destruct (is_eq cr); [exact I|]. now apply IH. }
-    specialize (Scan xs O Wm).
-    match goal with |- Safe (x <- ?S ;; _) => destruct S as [hit|g] eqn:Hit end; cbn [bind]; [|subst; cbn; pf].
-    destruct (copy_wf pcre vo Wv) as (Pv & Qv).
-    destruct (copy pcre vo) as [v'|g]; cbn [bind]; [|rewrite (Qv g eq_refl); cbn; pf].
-    specialize (Pv v' eq_refl).
-    destruct hit as [n|].
+    pose proof (WF_lookup _ _ _ W Gk) as Wk.
+    pose proof (map_scan_safe ko xs O Wm) as Scan.
+    destruct (map_scan ko xs O) as [[n|]|g] eqn:Hit; cbn [bind]; [| |subst; cbn; pf].
     + apply scan_hit_lt in Hit.
       pose proof (items_ok_nth IMap xs n Wm ltac:(lia)) as Nn.
       destruct (nth n xs None) as [e|] eqn:En; [|cbn; pf].
       apply andb_prop in Nn as (Ni & Nw).
       destruct (item_ok_map_some _ Ni) as (pk & pv & Epair). inv Epair.
-      pose proof (relabel_wf v' (naddr w)) as Rv. destruct (relabel v' (naddr w)) as [v2 na]. cbn [fst] in Rv.
-      cbn [Safe]. split; cbn [held next]; [|now apply below_put].
-      apply WF_put; [exact W|]. rewrite wf_cont_items. apply items_ok_upd; [exact Wm|].
-      cbn [wf_opt] in Nw. rewrite wf_pair in Nw. apply andb_prop in Nw as (Nk & _).
-      change (item_ok IMap (Some (OPair (Some pk) (Some v2)))) with true. cbn [andb wf_opt].
-      rewrite wf_pair, Nk. cbn [wf_opt andb]. now rewrite Rv.
-    + destruct (copy_wf pcre ko Wk) as (Pk & Qk).
-      destruct (copy pcre ko) as [k'|g]; cbn [bind]; [|rewrite (Qk g eq_refl); cbn; pf].
-      specialize (Pk k' eq_refl).
-      pose proof (relabel_wf (OPair (Some k') (Some v')) (naddr w)) as Rp.
-      pose proof (relabel_opt_item IMap (Some (OPair (Some k') (Some v'))) (naddr w)) as Ri. cbn [relabel_opt] in Ri.
-      destruct (relabel (OPair (Some k') (Some v')) (naddr w)) as [pr na]. cbn [fst] in Rp, Ri.
-      destruct (c_insert c pr xs) as [xs'|g] eqn:Ci; cbn [bind]; [|apply c_insert_fault in Ci; subst; cbn; pf].
-      cbn [Safe]. split; cbn [held next]; [|now apply below_put].
-      apply WF_put; [exact W|]. rewrite wf_cont_items. eapply c_insert_ok; [exact Ci|exact Wm|].
-      rewrite Ri, Rp, wf_pair. cbn [item_ok wf_opt]. now rewrite Pk, Pv.
+      cbn [wf_opt] in Nw. rewrite wf_pair in Nw. apply andb_prop in Nw as (Nk & Nv). cbn [wf_opt] in Nk, Nv.
+      apply map_set_safe; [exact G|destruct pairform; assumption|exact Nv].
+    + exact G.
   - (* MRemove *)
     destruct (get w k) as [ko|g] eqn:Gk; cbn [bind]; [|apply get_fault in Gk; subst; cbn; pf].
     apply (take_safe w m IMap); [exact G|intros []; congruence| |].
@@ -481,6 +514,12 @@ Proof.
     destruct (as_cont co) as [[[[[i k] a] al] xs]|g] eqn:Ac; cbn [bind]; [|apply as_cont_fault in Ac; subst; cbn; pf].
     cbn [Safe]. pose proof (hand_back_good w (Some (OIter k c)) (held w) (naddr w) (ledger w + 1) W B eq_refl) as HG.
     destruct (hand_back w (Some (OIter k c)) (held w) (naddr w) (ledger w + 1)). exact HG.
+  - (* Query *)
+    destruct (get w c) as [co|g] eqn:Gc; cbn [bind]; [|apply get_fault in Gc; subst; cbn; pf].
+    destruct (get w h) as [po|g] eqn:Gh; cbn [bind]; [|apply get_fault in Gh; subst; cbn; pf].
+    destruct (as_cont co) as [[[[[i k] a] al] xs]|g] eqn:Ac; cbn [bind]; [|apply as_cont_fault in Ac; subst; cbn; pf].
+    match goal with |- Safe (if ?c then _ else _) => destruct c end; [cbn; pf|].
+    destruct (query_walk i po xs); [exact G|cbn; pf].
 Qed.
 
 Lemma good_w0 : Good w0.
